@@ -42,6 +42,7 @@ def shards(tier, seed):
     return out
 
 
+_BL = {"i": 0}
 DECODERS = {"string": util.sigdecode_string, "strings": util.sigdecode_strings, "der": util.sigdecode_der}
 
 
@@ -61,12 +62,19 @@ def judge(ctx, vk, dom, Q, sig, fmt, digest, allow_truncate, cls, key, cname, d=
             ctx.count("e_unspecified_skipped")
             return
         want = "accept" if ecdsa_ref.verify(dom, Q, e, rs[0], rs[1]) else "reject"
+    # bytes-like objects are legal inputs: every fourth call passes the same bytes as bytearray / memoryview
+    _BL["i"] += 1
+    sig_arg, dig_arg = sig, digest
+    if _BL["i"] % 4 == 0 and fmt != "strings":
+        sig_arg = bytearray(sig) if _BL["i"] % 8 else memoryview(bytes(sig))
+        dig_arg = memoryview(bytes(digest)) if _BL["i"] % 8 else bytearray(digest)
+        ctx.count("bytes_like_arguments")
     try:
         if via_verify is not None:
             data, hf = via_verify
-            got = vk.verify(sig, data, hashfunc=hf, sigdecode=dec, allow_truncate=allow_truncate)
+            got = vk.verify(sig_arg, data, hashfunc=hf, sigdecode=dec, allow_truncate=allow_truncate)
         else:
-            got = vk.verify_digest(sig, digest, sigdecode=dec, allow_truncate=allow_truncate)
+            got = vk.verify_digest(sig_arg, dig_arg, sigdecode=dec, allow_truncate=allow_truncate)
         outcome = "accept" if got is True else "returned %r" % (got,)
     except ecdsa.BadSignatureError:
         outcome = "reject"
